@@ -1,7 +1,7 @@
 /-
   C11 — any input is either parsed or rejected with a parse error, promptly (partial: Lark's and `re`'s running time and
   exception discipline are third-party).  What is mappyfile's own: the re-typing hook is total (also on an empty value
-  stack — the first token), changes nothing but two token types, and the grammar accepts each of the 19 block types
+  stack — the first token), changes nothing but three token types, and the grammar accepts each of the 19 block types
   at the root; INCLUDE expansion terminates (Props/C15: structural recursion on the nesting budget).
 -/
 import Mappy.Model.Retype
@@ -15,10 +15,10 @@ no IndexError / AttributeError can arise from it -/
 theorem C11_retype_total (attrs : List Str) (prev : Option Str) (ty text : Str) :
     ∃ ty', retypeWith attrs prev ty text = ty' := ⟨_, rfl⟩
 
-/-- **C11_retype_only_two** — it only ever turns UNQUOTED_STRING or GRID into UNQUOTED_STRING_VALUE … -/
-theorem C11_retype_only_two (attrs : List Str) (prev : Option Str) (ty text : Str)
+/-- **C11_retype_scope** — it only ever turns UNQUOTED_STRING, GRID or FEATURE into UNQUOTED_STRING_VALUE … -/
+theorem C11_retype_scope (attrs : List Str) (prev : Option Str) (ty text : Str)
     (h : retypeWith attrs prev ty text ≠ ty) :
-    (ty = unq ∨ ty = s%"GRID") ∧ retypeWith attrs prev ty text = unqValue := by
+    (ty = unq ∨ ty = s%"GRID" ∨ ty = s%"FEATURE") ∧ retypeWith attrs prev ty text = unqValue := by
   unfold retypeWith at h ⊢
   by_cases h1 : ty = unq
   · simp only [h1, if_true] at h ⊢
@@ -29,23 +29,31 @@ theorem C11_retype_only_two (attrs : List Str) (prev : Option Str) (ty text : St
     by_cases h2 : ty = s%"GRID"
     · simp only [h2, if_true] at h ⊢
       split at h
-      · rename_i hc; exact ⟨Or.inr trivial, by rw [if_pos hc]⟩
+      · rename_i hc; exact ⟨Or.inr (Or.inl trivial), by rw [if_pos hc]⟩
       · exact absurd rfl h
-    · simp only [h2, if_false] at h; exact absurd rfl h
+    · simp only [h2, if_false] at h ⊢
+      by_cases h3 : ty = s%"FEATURE"
+      · simp only [h3, if_true] at h ⊢
+        split at h
+        · rename_i hc; exact ⟨Or.inr (Or.inr trivial), by rw [if_pos hc]⟩
+        · exact absurd rfl h
+      · simp only [h3, if_false] at h; exact absurd rfl h
 
 /-- … and never at the start of the input -/
 theorem C11_retype_first_token (attrs : List Str) (ty text : Str) : retypeWith attrs none ty text = ty := by
   unfold retypeWith
   split
   · simp
-  · split <;> simp
+  · split
+    · simp
+    · split <;> simp
 
 /-- a SYMBOL attribute keeps its type in any letter case -/
-theorem C11_symbol_attribute_kept (attrs : List Str) (text : Str) (h : attrs.contains (upper text) = true) :
-    retypeWith attrs (some s%"SYMBOL") unq text = unq := by
+theorem C11_symbol_attribute_kept (attrs : List Str) (prev : Option Str) (text : Str) (h : attrs.contains (upper text) = true) :
+    retypeWith attrs prev unq text = unq := by
   unfold retypeWith
-  rw [if_pos rfl, h]
-  simp
+  have : attrs.contains (upper text) = true := h
+  simp only [if_true, this, Bool.not_true, Bool.and_false, Bool.false_eq_true, if_false]
 
 end Mappy.Retype
 
